@@ -18,6 +18,7 @@
 
 mod golden;
 mod index;
+mod panics;
 mod scan;
 mod walk;
 
@@ -211,6 +212,13 @@ fn main() {
     write!(v, "Definition not_linked : list positive := [{}]%positive.\n", nl.iter().map(|i| i.to_string()).collect::<Vec<_>>().join("; ")).unwrap();
     std::fs::create_dir_all(outdir).expect("outdir");
     std::fs::write(outdir.join("LockGraph.v"), v).expect("write LockGraph.v");
+
+    // ---- panic-site inventory for property C11: a second, independent output file (PanicSites.v); its own
+    // cross-check result is recorded inside that file and never changes the exit status of this run
+    match std::panic::catch_unwind(|| panics::emit(repo, outdir)) {
+        Ok(line) => println!("{}", line),
+        Err(_) => println!("PANICSITES-ERROR: the panic-site scanner itself panicked; PanicSites.v not updated"),
+    }
 
     // ---- report ----
     println!("srcfacts: {} files, {} functions (+{} spawned-task roots), {} acquisition sites, {} call events, {} call edges",
